@@ -10,10 +10,17 @@ fn main() {
     let area = args[1].as_str();
     let mode = args[2].as_str();
     match (area, mode) {
-        ("headermap", "replay") => {
+        (_, "replay") => {
             let cases = util::read_cases(&args[3]);
             let mut out = util::TraceOut::create(&args[4]);
-            areas::headermap::replay(&cases, &mut out);
+            match area {
+                "headermap" => areas::headermap::replay(&cases, &mut out),
+                "payload" => areas::payload::replay(&cases, &mut out),
+                _ => {
+                    eprintln!("unknown area {area}");
+                    std::process::exit(2);
+                }
+            }
             println!("{{\"runs\":{},\"events\":{}}}", cases.len(), out.events);
             out.finish();
         }
